@@ -464,3 +464,36 @@ def c18(ctx):
                 "hangs and (thorough tier, ASan+UBSan build) sanitizer reports are attributed to the case")
     cfg = "asan" if ctx.thorough else "base"
     simple(ctx, "MC_C18", "Trace_C18", cfg=cfg, floor=0.9)
+
+
+@plan("C19")
+def c19(ctx):
+    ctx.rule = ("TLC enumerates expressions of every kind the dumper knows (27 numbers incl. multi-limb integers, "
+                "signed zeros, infinities and NaN doubles; symbols and constants; arithmetic; 43 one-argument and 9 "
+                "two-argument functions; undefined functions; relationals and logic; 17 sets; derivatives, Subs, "
+                "piecewise) alone, in triples and nested, and expressions with one object in several places; TLC "
+                "validates that loads(dumps(e)) has the identical structural dump (doubles bit for bit), is eq, has "
+                "the same node count and no more distinct objects than e, and that a DenseMatrix of them round-trips")
+    simple(ctx, "MC_C19", "Trace_C19", floor=0.5)
+
+
+@plan("C20")
+def c20(ctx):
+    ctx.rule = ("TLC enumerates structured mutations (8 replacement values, 8 xor masks, truncation, suffix duplication) "
+                "at byte positions 0..200 (every third; thorough: every position to 260) of the serialized form of 21 "
+                "base expressions of all archive shapes; every mutated string is loaded and the result printed, hashed "
+                "and compared; TLC validates that every outcome is a usable expression or an exception of the library / "
+                "archive layer and that no canonical-form assertion fired; crashes, hangs and (thorough tier, "
+                "ASan+UBSan build) sanitizer reports are attributed to the case")
+    cfg = "asan" if ctx.thorough else "base"
+    cases = ctx.gen("MC_C20")
+    # attacker-controlled length fields make the archive layer allocate gigabytes: cap allocations so that they
+    # fail fast (bad_alloc is an acceptable outcome)
+    env = {"SEV_CASE_TIMEOUT": "30"}
+    if cfg == "asan":
+        env["ASAN_OPTIONS"] = "allocator_may_return_null=1:max_allocation_size_mb=256:detect_leaks=0"
+    else:
+        env["SEV_AS_LIMIT_MB"] = "1024"
+    events = ctx.drive(cfg, cases, env=env, max_crashes=60)
+    bad = ctx.validate("Trace_C20", events, floor=0.9)
+    ctx.judge(bad, cases)
